@@ -277,7 +277,7 @@ func genCase(r *rand.Rand, profile, order string, cycle bool, size int, mode str
 			c.Funcs = append(c.Funcs, *e.f)
 		}
 	}
-	c.Inits = r.Intn(3)
+	c.Inits = r.Intn(4)
 	for i := 0; i < c.Inits; i++ {
 		// init functions keep their relative order (init0 before init1 …)
 		pos := r.Intn(len(layout) + 1)
@@ -288,6 +288,20 @@ func genCase(r *rand.Rand, profile, order string, cycle bool, size int, mode str
 		if it == "i?" {
 			layout[i] = fmt.Sprintf("i%d", k)
 			k++
+		}
+	}
+	// declarations that look like init functions (each kind at most once), anywhere among the others
+	if r.Intn(100) < 55 {
+		kinds := append([]string{}, lookKinds...)
+		r.Shuffle(len(kinds), func(i, j int) { kinds[i], kinds[j] = kinds[j], kinds[i] })
+		n := 1 + r.Intn(3)
+		if r.Intn(5) == 0 {
+			n = 1 + r.Intn(len(kinds))
+		}
+		for i := 0; i < n; i++ {
+			c.Looks = append(c.Looks, lookT{Kind: kinds[i]})
+			pos := r.Intn(len(layout) + 1)
+			layout = append(layout[:pos], append([]string{fmt.Sprintf("l%d", i)}, layout[pos:]...)...)
 		}
 	}
 	c.Layout = layout
@@ -343,6 +357,16 @@ func genProg(r *rand.Rand, main caseT) caseT {
 		}
 		body.Layout = append(body.Layout, fmt.Sprintf("v%d", len(body.Vars)))
 		body.Vars = append(body.Vars, x)
+		// half of the imported packages are split over two or three files
+		if r.Intn(2) == 0 {
+			rest := len(body.Layout)
+			for nf := 1 + r.Intn(2); nf > 0; nf-- {
+				k := r.Intn(rest + 1)
+				body.Files = append(body.Files, k)
+				rest -= k
+			}
+			body.Files = append(body.Files, rest)
+		}
 		sp.Body = body
 		main.Subs = append(main.Subs, sp)
 	}
@@ -401,7 +425,7 @@ func generate(r *rand.Rand, thorough bool) []caseT {
 }
 
 func caseSize(c caseT) int {
-	n := len(c.Vars) + len(c.Funcs) + c.Inits
+	n := len(c.Vars) + len(c.Funcs) + c.Inits + len(c.Looks)
 	for _, v := range c.Vars {
 		for _, as := range v.Args {
 			n += len(as)
